@@ -1,20 +1,25 @@
-"""Registry of properties (which Lean modules state their theorems, which correspondence suites tie
-their model slice to /repo) and of suites (harness suite name, Lean driver, sizes per tier)."""
+"""Registry of properties and suites, merged from bin/registry.d/*.json (one file per model slice).
 
-SUITES = {
-    "mint": {"driver": "drv_mint", "n_quick": 150, "n_thorough": 3000},
-    "mint_extreme": {"suite": "mint", "driver": "drv_mint", "n_quick": 150, "n_thorough": 3000,
-                     "env": {"VERIF_MINT_EXTREME": "1"}},
-}
+suite entry : {"driver": <lean_exe name>, "n_quick": int, "n_thorough": int, ["suite": harness suite name], ["env": {...}]}
+prop entry  : {"modules": [Lean modules with the property theorems], "suites": [suite names], "facts": bool,
+               "modelled_not_verified": [...], "assumptions": [...]}
+A property may be extended by several files: lists are concatenated (order-preserving, de-duplicated)."""
+import glob
+import json
+import os
 
-BANK = ["x/bank modelled by its contract (mint adds to supply, send is a transfer); exercised, not verified"]
-
-PROPS = {
-    "C13": {
-        "modules": ["SgeProofs.Properties.C13"],
-        "suites": ["mint"],
-        "facts": False,
-        "modelled_not_verified": BANK + ["256-bit overflow panics of sdkmath not modelled"],
-        "assumptions": ["burns by governance/staking modules are outside the claim (as the property states)"],
-    },
-}
+SUITES, PROPS = {}, {}
+for _f in sorted(glob.glob(os.path.join(os.path.dirname(os.path.abspath(__file__)), "registry.d", "*.json"))):
+    _d = json.load(open(_f))
+    SUITES.update(_d.get("suites", {}))
+    for _k, _v in _d.get("props", {}).items():
+        if _k not in PROPS:
+            PROPS[_k] = dict(_v)
+        else:
+            for _kk, _vv in _v.items():
+                if isinstance(_vv, list):
+                    PROPS[_k][_kk] = list(dict.fromkeys(PROPS[_k].get(_kk, []) + _vv))
+                elif _kk == "facts":
+                    PROPS[_k][_kk] = PROPS[_k].get(_kk, False) or _vv
+                else:
+                    PROPS[_k][_kk] = _vv
